@@ -10,7 +10,14 @@ git -C /repo worktree add -q --detach $wt HEAD || exit 3
 if ! git -C $wt apply $dir/patch.diff 2>/dev/null; then
   git -C /repo worktree remove --force $wt; git -C /repo worktree add -q --detach $wt $base || exit 3
 else
-  git -C $wt checkout -q -- . ; git -C $wt clean -fdq; base=HEAD
+  # ... and only if the change still breaks the property there (its demo fails): a later repair may have made it harmless
+  d=$(mktemp -d /tmp/st-demo-XXXX)
+  if (cd $d && PYTHONPATH=$wt timeout -k 5 120 /venv/bin/python $dir/demo.py >/dev/null 2>&1); then
+    git -C /repo worktree remove --force $wt; git -C /repo worktree add -q --detach $wt $base || exit 3
+  else
+    git -C $wt checkout -q -- . ; git -C $wt clean -fdq; base=HEAD
+  fi
+  rm -rf $d
 fi
 git -C $wt apply $dir/patch.diff || { echo "PATCH DOES NOT APPLY on $base"; git -C /repo worktree remove --force $wt; exit 3; }
 for c in ${@:-$prop}; do
